@@ -12,10 +12,10 @@ ID = "C20"
 RULE = (
     "Real forked processes under a controller that lets exactly one run between scheduling points (job start; in the shared temp "
     "directory: os.open incl. exclusive create, open, unlink/remove, rename, stat/lstat); all get the same temp-name sequence, forcing "
-    "name collisions; shards fix the first two scheduling decisions. Group 'imports2': 14 (quick 11) two-process create_db job sets, "
+    "name collisions; shards fix the first two scheduling decisions. Group 'imports2': 15 (quick 12) two-process create_db job sets, "
     "ALL interleavings; job kinds: path, from_string, a duplicate-ID import that must fail, GTF with both or only transcript inference "
-    "off, CDS-only GTF, force=True over an existing file, file:// URL, verbose='debug', and an import writing '<the forced job's "
-    "output>.2' in the same directory; otherwise outputs are same-named files in separate directories; one input's gene id holds a "
+    "off (the latter also over a one-transcript GTF, where exactly one feature is left to infer), CDS-only GTF, force=True over an existing file, file:// URL, verbose='debug', and an import writing '<the forced job's "
+    "output>.2' in the same directory; otherwise outputs are same-named files in separate directories; one GFF3 input's and one GTF input's gene id hold a "
     "blank. 'imports2torn': two imports of the identical string with the first write into a shared-directory file split in two, within "
     "2 (quick) / 3 (thorough) pre-emptions. 'imports3': 3 three-process sets within 1 / 2 pre-emptions. 'imports1': one solitary "
     "13220-line import (12000 second-level relations). 'hashseeds' (2 executions: a GFF3 import merging duplicates with "
@@ -44,7 +44,7 @@ GFF_B = ["c2\ts\tgene\t5\t90\t.\t-\t.\tID=h 1", "c2\ts\tmRNA\t5\t90\t.\t-\t.\tID
          "c2\ts\tCDS\t5\t50\t.\t-\t0\tID=d1;Parent=k1"]
 GTF_A = ['c1\ts\texon\t1\t50\t.\t+\t.\tgene_id "G1"; transcript_id "T1";', 'c1\ts\texon\t60\t100\t.\t+\t.\tgene_id "G1"; transcript_id "T1";',
          'c1\ts\texon\t10\t20\t.\t+\t.\tgene_id "G1"; transcript_id "T2";']
-GTF_B = ['c3\ts\texon\t7\t9\t.\t-\t.\tgene_id "G9"; transcript_id "T9";', 'c3\ts\tCDS\t7\t8\t.\t-\t0\tgene_id "G9"; transcript_id "T9";']
+GTF_B = ['c3\ts\texon\t7\t9\t.\t-\t.\tgene_id "G 9"; transcript_id "T9";', 'c3\ts\tCDS\t7\t8\t.\t-\t0\tgene_id "G 9"; transcript_id "T9";']      # one gene (its id holds a blank), one transcript
 
 GTF_C = ['c4\ts\tCDS\t7\t9\t.\t+\t0\tgene_id "G4"; transcript_id "T4";', 'c4\ts\tstop_codon\t10\t12\t.\t+\t0\tgene_id "G4"; transcript_id "T4";']
 
@@ -67,6 +67,7 @@ JOBS = {
     "gffA_str": ("string", GFF_A),
     "gffDUP": ("fails", GFF_A + [GFF_A[2]]),  # duplicate ID under the default merge_strategy='error': the import raises
     "gtfA_noinfer": ("noinfer", GTF_A),       # GTF with both inference switches off
+    "gtfB_noinfer_t": ("noinfer_t", GTF_B),   # the same setting where exactly ONE feature is left to infer
     "gtfA_noinfer_t": ("noinfer_t", GTF_A),   # GTF with transcript inference off only (the setting for files that carry transcript lines)
     "gffA_force": ("force", GFF_A),          # output file already exists; force=True
     "gffB_url": ("url", GFF_B),              # input given as a file:// URL
@@ -76,7 +77,7 @@ JOBS = {
 EXPECT_FAIL = {"gffDUP"}
 SETS2T = [("gffA_str", "gffA_str")]          # explored with torn first writes, within a pre-emption bound
 SETS2 = [("gffDUP", "gffB"), ("gtfA_noinfer", "gffA"), ("gffA", "gffA"), ("gffA", "gffB"), ("gffA", "gtfA"), ("gtfA", "gtfB"), ("gtfA", "gtfA"), ("gffB", "gffA_str"), ("gtfC", "gffB"), ("gtfA", "gffA_force"), ("gffB_url", "gffA"),
-         ("gffA_debug", "gtfA"), ("gffA_force", "gffB_prefix"), ("gtfA_noinfer_t", "gtfA_noinfer")]
+         ("gffA_debug", "gtfA"), ("gffA_force", "gffB_prefix"), ("gtfA_noinfer_t", "gtfA_noinfer"), ("gtfB_noinfer_t", "gffB")]
 SETS3 = [("gffA", "gtfA", "gffB"), ("gtfA", "gtfC", "gtfB"), ("gffA", "gffA", "gffA")]
 READERS = [2, 3]
 
